@@ -155,6 +155,41 @@ pub(crate) enum Message {
     /// verif-hooks: run one real block-assembler update path, returning the state before / after
     #[cfg(feature = "verif-hooks")]
     VerifAssemblerStep(Request<(u8, Option<Arc<Snapshot>>), Option<crate::verif::AsmStep>>),
+    /// verif-hooks: `process_tx` of a local transaction with a pause between verification and `submit_entry`
+    #[cfg(feature = "verif-hooks")]
+    VerifSubmitPaused(Request<VerifPausedArgs, SubmitTxResult>),
+}
+
+/// verif-hooks: (transaction, where the result of the pre-check/verification phase is reported, the gate
+/// that ends the pause)
+#[cfg(feature = "verif-hooks")]
+pub type VerifPausedArgs = (
+    TransactionView,
+    std::sync::mpsc::Sender<Result<(), crate::error::Reject>>,
+    tokio::sync::oneshot::Receiver<()>,
+);
+
+/// verif-hooks: a local submission that is paused between its verification and `submit_entry`
+#[cfg(feature = "verif-hooks")]
+pub struct VerifPaused {
+    /// the result of `non_contextual_verify` + `pre_check` + `verify_rtx` (an `Err` ends the submission)
+    pub phase1: Result<(), crate::error::Reject>,
+    gate: Option<tokio::sync::oneshot::Sender<()>>,
+    response: oneshot::Receiver<SubmitTxResult>,
+}
+
+#[cfg(feature = "verif-hooks")]
+impl VerifPaused {
+    /// end the pause: `submit_entry` runs with the tip hash of the pre-check; returns the submission's result
+    pub fn release(mut self) -> Result<Result<(), crate::error::Reject>, AnyError> {
+        if let Some(g) = self.gate.take() {
+            let _ = g.send(());
+        }
+        self.response
+            .recv()
+            .map_err(handle_recv_error)
+            .map_err(Into::into)
+    }
 }
 
 /// verif-hooks: boxed read-only probe executed by the service under the tx-pool read lock
@@ -250,6 +285,36 @@ impl TxPoolController {
         snapshot: Option<Arc<Snapshot>>,
     ) -> Result<Option<crate::verif::AsmStep>, AnyError> {
         send_message!(self, VerifAssemblerStep, (kind, snapshot))
+    }
+
+    /// verif-hooks: submit a local transaction through the real `process_tx` steps (`non_contextual_verify`,
+    /// `pre_check`, `verify_rtx`, `submit_entry`, `after_process`) with a PAUSE between the verification and
+    /// `submit_entry` (as if the verification took long): returns once the first phase is done; the caller
+    /// may let the chain and the pool move on and then calls `release`. Read-only with respect to the
+    /// production paths: no existing code is changed.
+    #[cfg(feature = "verif-hooks")]
+    pub fn verif_submit_paused(&self, tx: TransactionView) -> Result<VerifPaused, AnyError> {
+        let (responder, response) = oneshot::channel();
+        let (p1_tx, p1_rx) = std::sync::mpsc::channel();
+        let (gate_tx, gate_rx) = tokio::sync::oneshot::channel();
+        let request = Request::call((tx, p1_tx, gate_rx), responder);
+        self.sender
+            .try_send(Message::VerifSubmitPaused(request))
+            .map_err(|e| {
+                let (_m, e) = handle_try_send_error(e);
+                e
+            })?;
+        let phase1 = p1_rx.recv().map_err(|_| {
+            let e: AnyError = ckb_error::InternalErrorKind::System
+                .other("verif_submit_paused: first phase did not report")
+                .into();
+            e
+        })?;
+        Ok(VerifPaused {
+            phase1,
+            gate: Some(gate_tx),
+            response,
+        })
     }
 
     /// Return whether tx-pool service is started
@@ -1089,6 +1154,16 @@ async fn process(mut service: TxPoolService, message: Message) {
             };
             if responder.send(r).is_err() {
                 error!("Responder sending verif_assembler_step failed")
+            };
+        }
+        #[cfg(feature = "verif-hooks")]
+        Message::VerifSubmitPaused(Request {
+            responder,
+            arguments: (tx, phase1, gate),
+        }) => {
+            let result = service.verif_process_tx_paused(tx, phase1, gate).await;
+            if let Err(e) = responder.send(result) {
+                error!("Responder sending verif_submit_paused result failed {:?}", e);
             };
         }
         #[cfg(feature = "verif-hooks")]
